@@ -12,12 +12,12 @@ type genState struct {
 	rng      *hcommon.RNG
 	prop     string
 	nextKey  int
-	live     []int            // attached session keys
-	nextReq  map[int]int      // per session request counter
-	subs     map[int][]int    // session -> subscription ids it holds
-	regs     map[int][]int    // session -> registration ids it holds
-	invs     map[int][]int    // callee -> pending invocation ids
-	calls    map[int][]int    // caller -> pending call request ids
+	live     []int         // attached session keys
+	nextReq  map[int]int   // per session request counter
+	subs     map[int][]int // session -> subscription ids it holds
+	regs     map[int][]int // session -> registration ids it holds
+	invs     map[int][]int // callee -> pending invocation ids
+	calls    map[int][]int // caller -> pending call request ids
 	allSubs  []int
 	allRegs  []int
 	features map[int]map[string][]string
@@ -29,7 +29,7 @@ type genState struct {
 	usedMeta map[int]bool // sessions that called a wamp.* procedure (never stalled: known finding F19)
 	smallCap map[int]bool // sessions with a tiny queue: they never subscribe (which of several events of one
 	// action overflows depends on Go map iteration order)
-	closed   bool
+	closed bool
 }
 
 var topics = []string{"a", "a.b", "a.b.c", "a.c", "b", "x.y", "a.b.c.d"}
@@ -62,7 +62,7 @@ func (g *genState) config() map[string]any {
 	if boolOf(cfg, "metaStrict") && r.Chance(1, 2) {
 		cfg["metaInc"] = []any{"team"}
 	}
-	if r.Chance(1, 3) {
+	if r.Chance(1, 3) || g.prop == "C20" {
 		var hs []any
 		for i := 0; i < 1+r.Intn(2); i++ {
 			switch r.Intn(3) {
@@ -217,7 +217,7 @@ func (g *genState) sidRef() any {
 func (g *genState) pubOptions() map[string]any {
 	r := g.rng
 	o := map[string]any{}
-	if r.Chance(1, 2) {
+	if r.Chance(1, 2) || g.prop == "C20" {
 		o["acknowledge"] = hcommon.Pick(r, []any{true, true, false, "yes"})
 	}
 	if r.Chance(1, 3) {
@@ -325,6 +325,9 @@ func (g *genState) next() map[string]any {
 			return map[string]any{"op": "addRealm", "cfg": map[string]any{"uri": name, "disclose": true, "metaKill": true}}
 		}
 	}
+	if (g.prop == "C05" && r.Chance(1, 6)) || r.Chance(1, 40) {
+		return map[string]any{"op": "snapshot"}
+	}
 	if len(g.realms) == 0 || g.closed {
 		if r.Chance(1, 2) {
 			return map[string]any{"op": "tick", "ms": 1000}
@@ -369,6 +372,9 @@ func (g *genState) next() map[string]any {
 		return msg(34, g.req(k), pickInt(r, append(append([]int{}, g.subs[k]...), g.allSubs...), 1+r.Intn(8)))
 	case w < 38: // PUBLISH
 		t := hcommon.Pick(r, topics)
+		if g.prop == "C20" && r.Chance(3, 4) {
+			t = hcommon.Pick(r, g.histTopics())
+		}
 		if r.Chance(1, 12) {
 			t = hcommon.Pick(r, badURIs)
 		}
@@ -491,6 +497,39 @@ func (g *genState) next() map[string]any {
 	return g.joinOp()
 }
 
+// histTopics returns topics that match the configured event-history subscriptions.
+func (g *genState) histTopics() []string {
+	res := []string{}
+	cfgs := []map[string]any{g.cfg}
+	if l, ok := g.cfg["realms"].([]any); ok {
+		cfgs = nil
+		for _, x := range l {
+			if m, ok := x.(map[string]any); ok {
+				cfgs = append(cfgs, m)
+			}
+		}
+	}
+	for _, c := range cfgs {
+		hs, _ := c["history"].([]any)
+		for _, h := range hs {
+			m, _ := h.(map[string]any)
+			t, _ := m["topic"].(string)
+			switch m["match"] {
+			case "prefix":
+				res = append(res, t+".z", t+"b", t)
+			case "wildcard":
+				res = append(res, "a.b.c", "a.x.c", "a.b")
+			default:
+				res = append(res, t)
+			}
+		}
+	}
+	if len(res) == 0 {
+		return topics
+	}
+	return res
+}
+
 func (g *genState) remove(k int) {
 	for i, x := range g.live {
 		if x == k {
@@ -508,8 +547,15 @@ func (g *genState) metaCall(k int) map[string]any {
 		return map[string]any{"op": "msg", "s": k, "m": []any{48, rq, map[string]any{}, proc, args, kw}}
 	}
 	subID := pickInt(r, g.allSubs, 1+r.Intn(6))
+	if g.prop == "C20" && r.Chance(3, 4) {
+		subID = 1 + r.Intn(2) // the pre-created history subscriptions
+	}
 	regID := pickInt(r, g.allRegs, 20+r.Intn(6))
-	switch r.Intn(24) {
+	sel := r.Intn(24)
+	if g.prop == "C20" && r.Chance(2, 3) {
+		sel = 21
+	}
+	switch sel {
 	case 0:
 		return call("wamp.session.count", nil, nil)
 	case 1:
@@ -585,6 +631,10 @@ func (g *genState) metaCall(k int) map[string]any {
 		}
 		if r.Chance(1, 5) {
 			kw[hcommon.Pick(r, []string{"from_time", "after_time", "before_time", "until_time"})] = map[string]any{"$ms": hcommon.Pick(r, []int{0, 1, 50, 100, 1000})}
+		}
+		if r.Chance(1, 3) {
+			kw[hcommon.Pick(r, []string{"from_publication", "after_publication", "before_publication", "until_publication"})] =
+				hcommon.Pick(r, []any{map[string]any{"$pub": r.Intn(6)}, map[string]any{"$pub": r.Intn(3)}, 0, "x"})
 		}
 		return call("wamp.subscription.get_events", hcommon.Pick(r, [][]any{{subID}, {subID}, {1}, nil, {"x"}}), kw)
 	case 22:
